@@ -195,6 +195,9 @@ func checkC04(c *Ctx) {
 				if rt == nil || len(rt.Args) != 1 || len(spCall.Args) != 1 || canon(info, rt.Args[0]) != canon(info, spCall.Args[0]) || recvOf(rt) != recvOf(spCall) {
 					problems = append(problems, "RollbackTo does not name the save point that was just taken on the same handle")
 				}
+				if rt != nil && len(fcCall.Args) == 1 && canon(info, fcCall.Args[0]) == recvOf(rt) {
+					problems = append(problems, "the deferred RollbackTo runs on the very handle that is handed to the block ("+recvOf(rt)+"): RollbackTo executes a statement through that handle and is skipped once the block has put an error on it")
+				}
 			}
 			rdef.Check(len(problems) == 0, tr.Name(), desc+" (nested)", fcCall.Pos(), "SavePoint(sp); defer RollbackTo(sp); "+fcName, strings.Join(problems, "; "))
 			rbeg.Check(pr.Before[fcIdx].Has(fNil(errName)), tr.Name(), desc+": SavePoint succeeded", fcCall.Pos(), errName+" == nil after SavePoint", "the nested block runs although SAVEPOINT failed: a later RollbackTo cannot undo it")
